@@ -540,6 +540,31 @@ def g13_near_tolerance(rng, p):
     return s
 
 
+def g14_symmetric_split(rng, big=False):
+    """
+    a leader whose ballots go on to two (or three) level runners-up in exactly equal shares, with one seat fewer than would take
+    them all: whatever the leader's keep factor gives away reaches the runners-up simultaneously, so a keep factor one unit too
+    small (or a quota one unit too low) lifts all of them over the quota in the same iteration
+    """
+    k = rng.choice([2, 2, 2, 3])
+    ns = k                                      # leader + k runners-up for k seats
+    extra = 0 if rng.random() < 0.7 else rng.randint(1, 2)      # also-rans (none: the runners-up converge on the quota itself)
+    nc = 1 + k + extra
+    cands = rng.sample(range(1, nc + 1), nc)
+    A, runners, rest = cands[0], cands[1:1 + k], cands[1 + k:]
+    share = rng.randint(2, 30)
+    own = rng.randint(1, 25)
+    lines = [(share, [A, r]) for r in runners] + [(own, [r]) for r in runners]
+    for c in rest:
+        lines.append((rng.randint(0, max(0, own - 1)) or 1, [c] + rng.sample(runners, rng.randint(0, 1))))
+    if extra and rng.random() < 0.3:
+        lines.append((rng.randint(1, 5), [A]))
+    rng.shuffle(lines)
+    s = base(nc, ns, lines, rng)
+    s['family'] = 'G14'
+    return make_valid(s, rng)
+
+
 def g8_equal_ranks(rng, big=False):
     "ballots with equal rankings (meek / warren only)"
     nc = rng.randint(3, 8 if big else 6)
@@ -715,7 +740,7 @@ def g9_real_files(rng, big=False, repo=None):
 
 FAMILIES = {
     'G1': g1_uniform, 'G2': g2_ties, 'G3': g3_quota_boundary, 'G4': g4_chains, 'G5': g5_coalition,
-    'G4b': g4b_tiny_chained_surpluses, 'G5b': g5b_two_surpluses, 'G11': g11_mid_electorate, 'G6': g6_degenerate, 'G7': g7_withdrawn_undeclared, 'G8': g8_equal_ranks, 'G8b': g8b_quota_creep, 'G12': g12_slow_quota_decay, 'G9': g9_real_files,
+    'G4b': g4b_tiny_chained_surpluses, 'G5b': g5b_two_surpluses, 'G11': g11_mid_electorate, 'G6': g6_degenerate, 'G7': g7_withdrawn_undeclared, 'G8': g8_equal_ranks, 'G8b': g8b_quota_creep, 'G12': g12_slow_quota_decay, 'G14': g14_symmetric_split, 'G9': g9_real_files,
     'G10': g10_sure_losers,
 }
 
